@@ -8,8 +8,8 @@ TECH = "contract-based deductive verification: weakest-precondition style VCs ge
 
 claims = {
  "C05": dict(
-   text="Proof, for all field values and all lengths, that each packet builder returns exactly the byte sequence of an independent MQTT 3.1.1 specification encoder (ghost spec functions written from the standard): remaining-length codec, length-prefixed fields, CONNECT (all flag combinations), PUBLISH, SUBSCRIBE, UNSUBSCRIBE, the four acknowledgement packets, PINGREQ/DISCONNECT; the decoder side (readPacket, unpackString/unpackUint16, PUBLISH and acknowledgement Parse) returns the fields of the bytes it was given; ValidateMessage rejects before anything is written; obligations are discharged per function against callee contracts.",
-   note="Trusted: SSA->SMT translation, solvers, append/make allocation semantics, UTF-8 validity via string([]rune(s))==s, caller obligations at the API boundary (topic/filter/client id/user/password <= 65535 bytes, body <= 268435455 bytes, QoS <= 2), input slices do not alias. Integers are mathematical with an overflow obligation at every signed operation.",
+   text="Proof, for all field values and all lengths, that each packet builder returns exactly the byte sequence of an independent MQTT 3.1.1 specification encoder (ghost spec functions written from the standard): remaining-length codec, length-prefixed fields, CONNECT (all flag combinations), PUBLISH, SUBSCRIBE, UNSUBSCRIBE, the four acknowledgement packets, PINGREQ/DISCONNECT; the decoder side (unpackString/unpackUint16, PUBLISH Parse: flags, topic, id, payload; acknowledgement Parse: id) returns the fields of the bytes it was given; ValidateMessage rejects an over-long payload or QoS>2 and BaseClient.Publish validates before publishImpl is entered; obligations are discharged per function against callee contracts.",
+   note="Trusted: SSA->SMT translation, solvers, append/make allocation semantics, UTF-8 validity via string([]rune(s))==s, readPacket's reassembly of the byte stream is covered for safety and bounds (C06) but not for content equality, caller obligations at the API boundary (topic/filter/client id/user/password <= 65535 bytes, body <= 268435455 bytes, QoS <= 2), input slices do not alias. Integers are mathematical with an overflow obligation at every signed operation.",
    ref="DESIGN.md section 4.C05"),
  "C06": dict(
    text="Proof of panic-freedom (index, slice bounds, make, nil, explicit panic) of readPacket, unpackString/unpackUint16, every Parse and the serve loop body for every byte string the transport can deliver; one packet allocates at most its declared remaining length, which is bounded by 268435455; every malformed class named in the property returns a non-nil error; the reader goroutine stores that error and reports Closed before closing Done().",
